@@ -105,7 +105,7 @@ func (rt gRoute) wire() string {
 // ---------------------------------------------------------------------------------- pools
 
 var lits = []string{"a", "b", "c", "ab", "x", "1", "v1", "a.b", "a+b", "(x)", "a$", "%41", "x-y", "zz", "a*", "*", "*x", "*latest", "a%20b", "c++", "%2B", ":id", "~u"}
-var plainLits = []string{"a", "b", "c", "ab", "x", "1", "v1", "zz"}
+var plainLits = []string{"a", "b", "c", "ab", "x", "1", "v1", "zz", "a%20b", "%41", "c++"}
 var bindNames = []string{"x", "y", "z", "id", "name", "p1", "q"}
 
 type rePool struct {
